@@ -281,4 +281,72 @@ patch_if('B6', 'meta/essentials.py',
 '''        if not isinstance(formats, list):
             formats = [formats]''')
 
+# ---------------- B7: F14a subtraction order, F14b left-to-right class tokeniser
+# F14a subtract from the ranges first, so that the characters they leave behind are subtracted too
+patch_if('B7', 'core/classes.py',
+'''        # 2.a. Subtract ranges2 from chars1.
+        splt_ranges2 = [__class__.__split_range(rng) for rng in ranges2]
+        lst_chars1 = list(chars1)
+
+        for start, end in splt_ranges2:
+            i = 0
+            while i < len(lst_chars1):
+                c = lst_chars1[i]
+                if c.isalnum and c >= start and c <= end:
+                    lst_chars1.pop(i)
+                    i = -1
+                i += 1
+        chars1 = set(lst_chars1)
+
+        # 2.b Subtract chars2 from chars1.
+        chars1 = chars1.difference(chars2)
+
+        # 2.c. Subtract any characters in chars2 from ranges1.
+        ranges1, reduced_chars = subtract_ranges(ranges1, set(f"{c}-{c}" for c in chars2))
+        chars1 = chars1.union(reduced_chars)
+
+        # 2.d. Subtract ranges2 from ranges1.
+        ranges1, reduced_chars = subtract_ranges(ranges1, ranges2)
+        chars1 = chars1.union(reduced_chars)
+''',
+'''        # 2.a. Subtract any characters in chars2 from ranges1.
+        ranges1, reduced_chars = subtract_ranges(ranges1, set(f"{c}-{c}" for c in chars2))
+        chars1 = chars1.union(reduced_chars)
+
+        # 2.b. Subtract ranges2 from ranges1.
+        ranges1, reduced_chars = subtract_ranges(ranges1, ranges2)
+        chars1 = chars1.union(reduced_chars)
+
+        # 2.c. Subtract ranges2 from chars1.
+        splt_ranges2 = [__class__.__split_range(rng) for rng in ranges2]
+        lst_chars1 = list(chars1)
+
+        for start, end in splt_ranges2:
+            i = 0
+            while i < len(lst_chars1):
+                c = lst_chars1[i]
+                if c.isalnum and c >= start and c <= end:
+                    lst_chars1.pop(i)
+                    i = -1
+                i += 1
+        chars1 = set(lst_chars1)
+
+        # 2.d Subtract chars2 from chars1.
+        chars1 = chars1.difference(chars2)
+''')
+# F14b tokenise the class text from left to right, so that an escape is never entered in the middle
+patch_if('B7', 'core/classes.py',
+'''        range_pattern = \\
+            r"(?:\\\\(?:\\[|\\]|\\^|\\$|\\-|\\/|[a-z]|\\\\)|[^\\[\\]\\^\\-\\/\\\\])" + \\
+            r"-(?:\\\\(?:\\[|\\]|\\^|\\$|\\-|\\/|[a-z]|\\\\)|[^\\[\\]\\^\\-\\/\\\\])"
+        ranges = set(_re.findall(range_pattern, classes))
+        classes = _re.sub(pattern=range_pattern, repl="", string=classes)
+        return (ranges, set(_re.findall(r"\\\\?.", classes, flags=_re.DOTALL)))''',
+'''        char_pattern = r"(?:\\\\.|[^\\\\])"
+        ranges, chars = set(), set()
+        for m in _re.finditer(f"({char_pattern}-{char_pattern})|{char_pattern}",
+            classes, flags=_re.DOTALL):
+            (chars if m.group(1) is None else ranges).add(m.group(0))
+        return (ranges, chars)''')
+
 print('applied', sorted(which))
